@@ -91,13 +91,19 @@ func waitFor(cond func() bool) bool {
 }
 
 func runFollower(ref *reference, hist string, crashAt int64, trace bool) (out outcome) {
+	hist, injKind, injK := splitHist(hist)
+	inj := &injector{}
+	if injKind == '@' {
+		inj.k = injK
+		inj.act = func(inner kv.KV) error { return inner.Flush() }
+	}
 	cfs := newCountFS(crashAt, trace)
 	dir := filepath.Join(scratch, fmt.Sprintf("f%d", dirSeq.Add(1)))
 	fsReg.Store(dir, vfs.FS(cfs))
 	defer fsReg.Delete(dir)
 	defer os.RemoveAll(dir)
 	makeDurableDir(cfs.mem, filepath.Join(dir, ns, fmt.Sprintf("shard-%d", shard)))
-	obs := &observer{}
+	obs := &observer{inj: inj}
 	walf := wal.NewWalFactory(&wal.FactoryOptions{BaseWalDir: filepath.Join(dir, "wal"), Retention: time.Hour, SegmentSize: 256 * 1024, SyncData: true})
 	defer walf.Close()
 	var factories []kv.Factory
@@ -166,6 +172,7 @@ func runFollower(ref *reference, hist string, crashAt int64, trace bool) (out ou
 		return fail("step-error:NewTerm", "initial: %v", err)
 	}
 	out.openOps = cfs.n.Load()
+	inj.armed.Store(true)
 	w := 0 // entries appended
 	send := func(fc server.FollowerController, k int, commit int64) bool {
 		e := ref.log[k]
@@ -216,6 +223,9 @@ func runFollower(ref *reference, hist string, crashAt int64, trace bool) (out ou
 		cfs.curStep.Store(int64(len(hist)))
 		cfs.freeze("<end of history>")
 	}
+	inj.armed.Store(false)
+	out.commits = inj.seen.Load()
+	out.injected = inj.fired.Load()
 	out.fsOps = cfs.n.Load()
 	out.frozenStep = cfs.frozenStep.Load()
 	out.frozenOp, _ = cfs.frozenOp.Load().(string)
@@ -229,6 +239,12 @@ func runFollower(ref *reference, hist string, crashAt int64, trace bool) (out ou
 
 	// ---- restart
 	where := fmt.Sprintf("crash at fs-op %d (before %q, during step %d), %d entries appended", crashAt, out.frozenOp, out.frozenStep, w)
+	if out.injected {
+		where += fmt.Sprintf(", KV flushed right before batch commit %d of the node", injK)
+	}
+	if err := inj.failure(); err != nil {
+		return fail("step-error:InjectedFlush", "%s: %v", where, err)
+	}
 	fc2, err := newFC()
 	if err != nil {
 		return fail("reopen-failed", "%s: controller does not start: %v", where, err)
@@ -272,7 +288,7 @@ func runFollower(ref *reference, hist string, crashAt int64, trace bool) (out ou
 		return fail("newterm-after-crash-failed", "%s: %v", where, err)
 	}
 	// the leader goes on: one more entry whose commit offset covers everything
-	if w < maxWrites {
+	if w < len(ref.log) {
 		k := w
 		w++
 		if !send(fc2, k, int64(k)) {
